@@ -550,6 +550,12 @@ func (e *Engine) fnMods(f *ssa.Function, m map[string]bool, visiting map[*ssa.Fu
 		return
 	}
 	if len(f.Blocks) == 0 {
+		if pf, all := extFrame(f.Signature); !all {
+			for _, p := range pf {
+				m[p] = true
+			}
+			return
+		}
 		m["*"] = true
 		return
 	}
@@ -565,6 +571,12 @@ func (e *Engine) fnMods(f *ssa.Function, m map[string]bool, visiting map[*ssa.Fu
 		inMod = true
 	}
 	if !inMod && f.Synthetic == "" {
+		if pf, all := extFrame(f.Signature); !all {
+			for _, p := range pf {
+				m[p] = true
+			}
+			return
+		}
 		m["*"] = true
 		return
 	}
